@@ -1064,8 +1064,29 @@ func c15Globals(c *Ctx, p *Prog, eff *effects, reach map[*ssa.Function]bool) {
 		fns = append(fns, fn)
 	}
 	sort.Slice(fns, func(i, j int) bool { return fnName(fns[i]) < fnName(fns[j]) })
+	// lazy initialisation: a function run through sync.Once.Do fills a table once, with a value that does not depend on
+	// any run's arguments when it takes none
+	onceFns := map[*ssa.Function]bool{}
 	for _, fn := range fns {
-		if fn.Pkg == nil || !strings.HasPrefix(fn.Pkg.Pkg.Path(), modPath) || fn.Name() == "init" {
+		eachInstr(fn, func(_ *ssa.BasicBlock, in ssa.Instruction) {
+			call, ok := in.(ssa.CallInstruction)
+			if !ok || !objIs(calleeObj(call.Common()), "sync", "Once", "Do") {
+				return
+			}
+			for _, a := range call.Common().Args {
+				switch x := a.(type) {
+				case *ssa.Function:
+					onceFns[x] = true
+				case *ssa.MakeClosure:
+					if f, ok := x.Fn.(*ssa.Function); ok && len(x.Bindings) == 0 {
+						onceFns[f] = true
+					}
+				}
+			}
+		})
+	}
+	for _, fn := range fns {
+		if fn.Pkg == nil || !strings.HasPrefix(fn.Pkg.Pkg.Path(), modPath) || fn.Name() == "init" || onceFns[fn] {
 			continue
 		}
 		nF++
